@@ -168,6 +168,22 @@ def extract(src):
         for n in ast.walk(close_fn))
     wakes = any(isinstance(n, ast.Attribute) and n.attr == "_retry_delays" for n in ast.walk(close_fn))
 
+    # _load_topic_partitions: does the decode re-bind the local `topics` (so that the loop and the retry use the
+    # RESPONSE's topics), or are the requested topics kept (9b87dea)?
+    ltp = src.func("client.py", "KafkaClient._load_topic_partitions")
+    rebinds = None
+    for n in ast.walk(ltp):
+        if (isinstance(n, ast.Assign) and isinstance(n.value, ast.Call) and isinstance(n.value.func, ast.Attribute)
+                and n.value.func.attr == "decode_metadata_response" and isinstance(n.targets[0], ast.Tuple)):
+            rebinds = n.targets[0].elts[1].id == "topics"
+    if rebinds is None:
+        raise KeyError("_load_topic_partitions: decode_metadata_response assignment not found")
+    if not rebinds:
+        ok = any(isinstance(n, ast.If) and isinstance(n.test, ast.Compare) and isinstance(n.test.ops[0], ast.NotIn)
+                 and isinstance(n.test.left, ast.Name) and n.test.left.id == "topic" for n in ast.walk(ltp))
+        if not ok:
+            raise KeyError("_load_topic_partitions: requested topics kept but no `topic not in <response>` test")
+
     def ints(l):
         return "[" + ", ".join("(%d)" % x for x in l) + "]"
 
@@ -187,6 +203,7 @@ def extract(src):
         ("clientSendValidatesKeysFirst", bool(validates_first)),
         ("clientCloseIdempotent", bool(idempotent)),
         ("clientCloseWakesRetryDelays", bool(wakes)),
+        ("clientLtpKeepsRequestedTopics", not rebinds),
         ("clientHandleExaminesAll", bool(examines_all)),
         ("clientResetAllClearsPartMeta", "partition_meta" in cleared),
     ]
